@@ -19,9 +19,24 @@ def _expand(args):
     modname, root_id, hist, actions = args
     mod = importlib.import_module(modname)
     out = []
+    import signal
+
+    class _T(BaseException):
+        pass
+
+    def _alarm(signum, frame):
+        raise _T()
+
+    signal.signal(signal.SIGALRM, _alarm)
     for a in actions:
         try:
-            out.append(mod.transition(root_id, hist, a))
+            signal.alarm(60)
+            try:
+                out.append(mod.transition(root_id, hist, a))
+            finally:
+                signal.alarm(0)
+        except _T:
+            out.append({"action": a, "succ": None, "viol": [{"sig": {"kind": "operation-hangs", "action": str(a)}, "case": {"root": root_id, "hist": list(hist), "action": a}, "detail": {"why": f"history {list(hist)} + {a}: the operation did not finish within 60 s"}}], "info": {"outcome": "TIMEOUT"}})
         except mod.HarnessNondeterminism as e:
             out.append({"action": a, "succ": None, "viol": [{"sig": {"kind": "harness-nondeterminism"}, "case": {"root": root_id, "hist": list(hist), "action": a}, "detail": {"why": str(e)}}], "info": {"outcome": "HARNESS"}})
     return root_id, hist, out
@@ -32,11 +47,16 @@ def bfs(run, modname, roots, actions, max_depth, budget_s, chunk_actions=8):
     time budget).  Returns dict of statistics; violations are added to run."""
     mod = importlib.import_module(modname)
     stats = {"states": 0, "transitions": 0, "per_root": {}, "closed_roots": 0, "max_depth_completed": None}
-    t_end = time.time() + budget_s
     ctx = mp.get_context("fork")
     depth_done_all = max_depth
+    g_wall, g_trans = 0.0, 0
     with cf.ProcessPoolExecutor(max_workers=core.NPROC, mp_context=ctx) as ex:
-        for root in roots:
+        for k_root, root in enumerate(roots):
+            # every root gets an equal share of what is left of the budget
+            if k_root == 0:
+                t_start = time.time()
+            left = budget_s - (time.time() - t_start)
+            t_end = time.time() + max(5.0, left / (len(roots) - k_root))
             init_canon = mod.initial_canon(root)
             seen = {init_canon: ()}
             frontier = [()]
@@ -79,7 +99,10 @@ def bfs(run, modname, roots, actions, max_depth, budget_s, chunk_actions=8):
                             seen[sc] = hist + (r["action"],)
                             nxt.append(hist + (r["action"],))
                 depth += 1
-                wall_per_trans = (time.time() - t_level) / max(1, trans - trans_before)
+                g_wall += time.time() - t_level
+                g_trans += trans - trans_before
+                # per-transition wall time: prefer the long-run average (small levels are dominated by start-up)
+                wall_per_trans = g_wall / max(1, g_trans) if g_trans > 2000 else (time.time() - t_level) / max(1, trans - trans_before)
                 # deterministic order regardless of completion order
                 nxt.sort()
                 frontier = nxt
